@@ -245,8 +245,11 @@ def sibling_inherit_case(rng, costs=None, small=False):
         elif k < 0.6:
             costs = {"spe": 0, "dup": 1, "hgt": rng.choice([1, 2, "inf"]), "floss": 1, "sloss": 0}
         elif k < 0.8:
-            costs = {"spe": 0, "dup": rng.randint(1, 2), "hgt": rng.choice([1, 2, 3]), "floss": rng.randint(1, 2),
-                     "sloss": rng.randint(1, 2)}
+            while True:  # inside the coherent region (the solver properties are stated there)
+                costs = {"spe": 0, "dup": rng.randint(1, 2), "hgt": rng.choice([1, 2, 3]), "floss": rng.randint(1, 2),
+                         "sloss": rng.randint(1, 2)}
+                if coherent(costs):
+                    break
         else:
             costs = rand_costs(rng, plain=False)
     # "only": run the unordered solvers (and the cheap plain ones) on it; the ordered DP over 2^families masks is slow here
